@@ -251,6 +251,73 @@ def ephemeral_key_fully_drawn(chk):
     chk.floor('ephemeral key draws', n, 2)
 
 
+def session_id_fresh(chk):
+    """"Across connections with different seeds the session IDs differ": for every full (non-resumed) handshake the server draws a new
+    32-byte session ID from the engine DRBG.  In the ClientHello word the resumption flag (result of check-resume) is tested by an
+    early return; on the path that continues - the full handshake - every way to the end of the word must pass through
+    mkrand(session_id, 32).  Path rule on the server bytecode, with the draw identified by the abstract interpreter (address and
+    length constants)."""
+    from .. import t0, t0ai
+    R = 'server-session-id-fresh'
+    P = t0.Program('hs_server')
+    o_sid = P.layouts.field(P.ctxname, 'eng.session.session_id')[0]
+    I = t0ai.Interp(P).run_entry()
+    cr = sorted(set((e.word, e.pc) for e in I.events if e.name == 'check-resume'))
+    if len(cr) != 1:
+        raise AnalysisBroken('hs_server: check-resume call not identified (%s)' % cr)
+    w, pc = cr[0]
+    W = P.words[w]
+    l = list(W.ins.values())
+    k = next(j for j, i in enumerate(l) if i.pc == pc)
+    if not (k + 1 < len(l) and l[k + 1].kind == 'putlocal'):
+        raise AnalysisBroken('hs_server: the result of check-resume is not stored in a local')
+    rl = l[k + 1].arg
+    draws = set(e.pc for e in I.events if e.name == 'mkrand' and e.word == w and e.args[0].isconst() and e.args[0].c == o_sid
+                and e.args[1].isconst() and e.args[1].c == 32)
+    early = [l[j + 1] for j, i in enumerate(l[:-3]) if i.kind == 'getlocal' and i.arg == rl and l[j + 1].kind == 'jumpifnot'
+             and l[j + 2].kind == 'const' and l[j + 3].kind == 'ret']
+    inst = 'hs_server W%d: a full handshake (resume flag clear) always draws a new session ID' % w
+    if not early:
+        chk.violation(R, inst, P.src, 'the early return of the resumption path was not found', key='%s shape' % R)
+        return
+    bad = None
+    seen, st = set(), [early[0].arg]
+    while st and bad is None:
+        q = st.pop()
+        if q in seen or q in draws or q not in W.ins:
+            continue
+        seen.add(q)
+        i = W.ins[q]
+        if i.kind == 'ret':
+            bad = q
+            break
+        st.extend(W.succs(i))
+    if bad is None and draws:
+        chk.ok(R, inst, P.src, 'draw at W%d@%s' % (w, sorted(draws)))
+    else:
+        chk.violation(R, inst, P.src, '%s: the session ID sent in the ServerHello can be the one the client offered, or a stale one'
+                      % ('the end of the word is reachable at pc %s without mkrand(session_id, 32)' % bad if draws else 'no mkrand(session_id, 32) in the word'), key=R)
+
+
+def hello_random_drawn(chk):
+    """"Across connections with different seeds the hello randoms differ": each side fills its 32-byte hello random from the engine
+    DRBG - all of it, or all but the 4 leading bytes when those carry the time (RFC 5246 7.4.1.2).  From the abstract interpretation:
+    a mkrand call whose constant (address, length) covers the random up to its last byte with at least 28 bytes."""
+    from .. import t0, t0ai
+    R = 'hello-random-drawn'
+    for key, fld in (('hs_client', 'eng.client_random'), ('hs_server', 'eng.server_random')):
+        P = t0.Program(key)
+        o = P.layouts.field(P.ctxname, fld)[0]
+        I = t0ai.Interp(P).run_entry()
+        draws = sorted(set((e.args[0].c, e.args[1].c) for e in I.events if e.name == 'mkrand' and e.args[0].isconst() and e.args[1].isconst()))
+        okk = [d for d in draws if o <= d[0] <= o + 4 and d[0] + d[1] == o + 32]
+        inst = '%s: %s is filled from the DRBG (28 or 32 bytes, up to its last byte)' % (key, fld.split('.')[1])
+        if okk:
+            chk.ok(R, inst, P.src, 'mkrand(%d, %d), field at %d' % (okk[0][0], okk[0][1], o))
+        else:
+            chk.violation(R, inst, P.src, 'DRBG draws (address, length) in this interpreter: %s; the random field is [%d, %d)' % (draws, o, o + 32), key='%s %s' % (R, key))
+
+
 def seed_all_bytes(chk):
     """"different seeds give different streams": every byte of an injected seed must reach the DRBG.  Decided part: with the seed
     length fixed to K, a single (non-looping) DRBG update whose length folds to a constant below K necessarily drops seed bytes."""
@@ -454,6 +521,8 @@ def run(tier):
     seed_all_bytes(chk)
     iv_field_writers(chk)
     ephemeral_key_fully_drawn(chk)
+    session_id_fresh(chk)
+    hello_random_drawn(chk)
     seq_rules(chk)
     seq_encoding(chk)
     return chk.finish()
